@@ -387,6 +387,27 @@ MOTIFS['M40b_input_node_restarts_the_subgraph_default'] = spec([
     node(0, has_additional=True), node(1, [('a', inp(0))]),
     node(2, [('a', inp(1))], is_rec=True, recur_k=3, use_default=True), node(3, [('a', rec(0, 2, 2)), ('b', inp(1))])])
 
+# two recurrent subgraphs in one pipeline: the restart of one must not disturb what the restart of the other has marked as
+# out of date and not hidden yet (the case of a switch / a candidate that is re-run only when its switch / one-of is resolved
+# again).  Siblings, and nested with the decision depending on the inner destination.
+MOTIFS['M41_sibling_subgraphs_switch_in_one'] = spec([
+    node(0), node(1, [('a', inp(0))], has_additional=True), node(2, [('a', inp(1))], body=LAB),
+    node(3, [('a', inp(1))]), node(4, [('a', inp(1))]),
+    node(5, [('a', sw(2, [('l0', 3), ('l1', 4)]))]), node(6, [('a', inp(5))], is_rec=True, recur_k=1),
+    node(7, [('a', inp(0))], has_additional=True), node(8, [('a', inp(7))], is_rec=True, recur_k=1),
+    node(9, [('a', rec(1, 6, 2)), ('b', rec(7, 8, 2))])])
+MOTIFS['M41b_sibling_subgraphs_oneof_in_one'] = spec([
+    node(0), node(1, [('a', inp(0))], has_additional=True), node(2, [('a', inp(1))]),
+    node(3, [('a', one(2))]), node(4, [('a', inp(3))], is_rec=True, recur_k=1),
+    node(5, [('a', inp(0))], has_additional=True), node(6, [('a', inp(5))], is_rec=True, recur_k=2),
+    node(7, [('a', rec(1, 4, 2)), ('b', rec(5, 6, 3))])])
+MOTIFS['M41c_nested_subgraphs_decision_reads_inner_destination'] = spec([
+    node(0), node(1, [('a', inp(0))], has_additional=True),
+    node(2, [('a', inp(1))], has_additional=True), node(3, [('a', inp(2))], is_rec=True, recur_k=1),
+    node(4, [('a', rec(2, 3, 2))], body=LAB), node(5, [('a', inp(1))]), node(6, [('a', inp(1))]),
+    node(7, [('a', sw(4, [('l0', 5), ('l1', 6)]))], is_rec=True, recur_k=1),
+    node(8, [('a', rec(1, 7, 2))])])
+
 
 def _with_cb(sp, cb):
     sp = dict(sp)
